@@ -131,7 +131,58 @@ def check_C11(tier, rng, jobs):
             "assumptions": ["input space sampled by a seeded generator, not exhausted"]}
 
 
-CHECKS = {"C05": check_C05, "C09": check_C09, "C10": check_C10, "C11": check_C11}
+def check_C02(tier, rng, jobs):
+    q = tier == QUICK
+    mc = [_mc_core("C02", "commit", tier, keys=["k1"], datas=["d1", "d2", "empty"], algos=["sha256", "sha1"],
+                   times=["1"], metas=[], dests=[], fam=["writer", "write", "lookup"], maxops=4 if q else 5,
+                   invariants=["TypeOK", "TmpAccounted", "LookupRefinesMap"],
+                   properties=["RoundTrip", "OnlyCommitMaps", "CommitVerdict", "AddressesPure"])]
+    progs = [G.roundtrip_program(rng, 12 if q else 40) for _ in range(16 if q else 200)]
+    progs += [G.roundtrip_program(rng, 3 if q else 8, big=True) for _ in range(4 if q else 40)]
+    agg = RN.run_batches("C02", RN.chunk(progs, 2 if q else 4), jobs=jobs)
+    return {"mc": mc, "agg": agg, "samples": [progs[0]["steps"][:10]],
+            "rule": "round trips over hostile keys x data lengths {0,1,..,1MiB-1,1MiB,1MiB+1,3MiB} x chunkings "
+                    "(one shot, single bytes, decreasing, with empty chunks, random) x five algorithms x all write "
+                    "entry points x five lanes; read back by key and by address",
+            "assumptions": ["input space sampled by a seeded generator, not exhausted",
+                            "xxh3 digests are not recomputed independently (no implementation installed)"]}
+
+
+def check_C08(tier, rng, jobs):
+    q = tier == QUICK
+    mc = [_mc_core("C08", "commit", tier, keys=["k1"], datas=["d1", "d2"], algos=["sha256", "sha1"],
+                   times=["1"], metas=[], dests=[], fam=["writer", "write", "remove", "lookup"],
+                   maxops=4 if q else 5,
+                   invariants=["TypeOK", "TmpAccounted", "LookupRefinesMap"],
+                   properties=["CommitVerdict", "OnlyCommitMaps", "RoundTrip"])]
+    progs = [G.commit_program(rng, 14 if q else 40) for _ in range(16 if q else 200)]
+    progs += [G.commit_program(rng, 3 if q else 6, big=True) for _ in range(4 if q else 40)]
+    agg = RN.run_batches("C08", RN.chunk(progs, 2 if q else 4), jobs=jobs)
+    return {"mc": mc, "agg": agg, "samples": [progs[0]["steps"][:10]],
+            "rule": "commits with declared size {none, less, equal, more} x declared integrity {none, right, "
+                    "wrong, other algorithm, multi} x prior key state {absent, present, removed} x chunkings x "
+                    "keyed / by address x both sides of the 1 MiB mmap threshold x five lanes, with lookups "
+                    "before and after"}
+
+
+def check_C14(tier, rng, jobs):
+    q = tier == QUICK
+    mc = [_mc_core("C14", "abandon", tier, keys=["k1"], datas=["d1", "d2"], algos=["sha256"],
+                   times=["1"], metas=[], dests=[], fam=["writer", "write", "remove", "lookup"],
+                   maxops=5 if q else 6,
+                   invariants=["TypeOK", "TmpAccounted", "LookupRefinesMap"],
+                   properties=["OnlyCommitMaps"])]
+    progs = [G.abandon_program(rng, 12 if q else 40) for _ in range(16 if q else 200)]
+    progs += [G.abandon_program(rng, 2 if q else 6, big=True) for _ in range(2 if q else 20)]
+    agg = RN.run_batches("C14", RN.chunk(progs, 2 if q else 4), jobs=jobs)
+    return {"mc": mc, "agg": agg, "samples": [progs[0]["steps"][:10]],
+            "rule": "writers abandoned after creation / after j chunks / with a background write in flight / "
+                    "after close / after a commit rejected by size or integrity, interleaved with successful "
+                    "operations; tmp/ is polled to quiescence (bound 10 s) and must match the live handles"}
+
+
+CHECKS = {"C02": check_C02, "C05": check_C05, "C08": check_C08, "C09": check_C09, "C10": check_C10,
+          "C11": check_C11, "C14": check_C14}
 
 
 # --------------------------------------------------------------------------------------
